@@ -199,6 +199,8 @@ func (m *Machine) callValue(s *State, f *Frame, x *ssa.Call, cc *ssa.CallCommon,
 					setRes(Sc{c.BV(0, 64)})
 				} else if mv, ok := s.load(a).(MapV); ok {
 					setRes(Sc{c.BV(uint64(len(mv.e)), 64)})
+				} else if ch, ok := s.load(a).(ChanV); ok {
+					setRes(Sc{c.BV(uint64(len(ch.buf)), 64)})
 				} else {
 					s.fail("unsupported", "len of chan")
 				}
